@@ -195,7 +195,7 @@ func (l *Gsub1_2) encode() []byte {
 	buf := make([]byte, covOffs+l.Cov.EncodeLen())
 	// buf[0] = 0
 	buf[1] = 2
-	buf[2] = byte(covOffs >> 8)
+	buf[2] = byte(offs16(int(covOffs)) >> 8)
 	buf[3] = byte(covOffs)
 	buf[4] = byte(n >> 8)
 	buf[5] = byte(n)
@@ -311,14 +311,14 @@ func (l *Gsub2_1) encode() []byte {
 
 	sequenceOffsets := make([]uint16, sequenceCount)
 	for i, repl := range l.Repl {
-		sequenceOffsets[i] = uint16(covOffs)
+		sequenceOffsets[i] = offs16(covOffs)
 		covOffs += 2 + 2*len(repl)
 	}
 
 	buf := make([]byte, covOffs+l.Cov.EncodeLen())
 	// buf[0] = 0
 	buf[1] = 1
-	buf[2] = byte(covOffs >> 8)
+	buf[2] = byte(offs16(int(covOffs)) >> 8)
 	buf[3] = byte(covOffs)
 	buf[4] = byte(len(l.Repl) >> 8)
 	buf[5] = byte(len(l.Repl))
@@ -435,14 +435,14 @@ func (l *Gsub3_1) encode() []byte {
 
 	alternateSetOffsets := make([]uint16, alternateSetCount)
 	for i, repl := range l.Alternates {
-		alternateSetOffsets[i] = uint16(covOffs)
+		alternateSetOffsets[i] = offs16(covOffs)
 		covOffs += 2 + 2*len(repl)
 	}
 
 	buf := make([]byte, covOffs+l.Cov.EncodeLen())
 	// buf[0] = 0
 	buf[1] = 1
-	buf[2] = byte(covOffs >> 8)
+	buf[2] = byte(offs16(int(covOffs)) >> 8)
 	buf[3] = byte(covOffs)
 	buf[4] = byte(len(l.Alternates) >> 8)
 	buf[5] = byte(len(l.Alternates))
@@ -652,7 +652,7 @@ func (l *Gsub4_1) encode() []byte {
 	total := 6 + 2*ligatureSetCount
 	ligatureSetOffsets := make([]uint16, ligatureSetCount)
 	for i, repl := range l.Repl {
-		ligatureSetOffsets[i] = uint16(total)
+		ligatureSetOffsets[i] = offs16(total)
 		total += 2 + 2*len(repl)
 		for _, lig := range repl {
 			total += 4 + 2*len(lig.In)
@@ -668,11 +668,11 @@ func (l *Gsub4_1) encode() []byte {
 
 	buf = append(buf,
 		0, 1, // version
-		byte(coverageOffset>>8), byte(coverageOffset),
+		byte(offs16(int(coverageOffset))>>8), byte(coverageOffset),
 		byte(ligatureSetCount>>8), byte(ligatureSetCount),
 	)
 	for _, offs := range ligatureSetOffsets {
-		buf = append(buf, byte(offs>>8), byte(offs))
+		buf = append(buf, byte(offs16(int(offs))>>8), byte(offs))
 	}
 	for _, repl := range l.Repl {
 		ligatureCount := len(repl)
@@ -833,19 +833,19 @@ func (l *Gsub8_1) encode() []byte {
 	total += l.Input.EncodeLen()
 	backtrackCoverageOffsets := make([]uint16, backtrackGlyphCount)
 	for i, cov := range l.Backtrack {
-		backtrackCoverageOffsets[i] = uint16(total)
+		backtrackCoverageOffsets[i] = offs16(total)
 		total += cov.EncodeLen()
 	}
 	lookaheadCoverageOffsets := make([]uint16, lookaheadGlyphCount)
 	for i, cov := range l.Lookahead {
-		lookaheadCoverageOffsets[i] = uint16(total)
+		lookaheadCoverageOffsets[i] = offs16(total)
 		total += cov.EncodeLen()
 	}
 
 	buf := make([]byte, 0, total)
 	buf = append(buf,
 		0, 1, // format
-		byte(coverageOffset>>8), byte(coverageOffset),
+		byte(offs16(int(coverageOffset))>>8), byte(coverageOffset),
 		byte(backtrackGlyphCount>>8), byte(backtrackGlyphCount),
 	)
 	for _, offset := range backtrackCoverageOffsets {
